@@ -285,7 +285,7 @@ def r05_3(rep, M, rid, strict=True, T=None):
         rep.violation(rid, "_spglib_description_to_system", f"Atoms built with {kw}", M.where(d2s))
 
 
-def r05_5(rep, M, rid):
+def r05_5(rep, M, rid, order_matters=False):
     """spglib sees exactly the analysed structure: (cell, scaled positions, numbers) unmodified"""
     fq = SA + "._system_to_spglib_description"
     fn = M.func(fq)
@@ -308,8 +308,10 @@ def r05_5(rep, M, rid):
             got = [c.func.attr for e in sl["exprs"] for c in ast.walk(e) if isinstance(c, ast.Call) and isinstance(c.func, ast.Attribute)]
             arith = [norm(x) for e in sl["exprs"] for x in ast.walk(e) if isinstance(x, (ast.BinOp, ast.UnaryOp, ast.IfExp))]
             # a selection / reordering of the rows (atoms) is a modification too: the dataset's per-atom arrays follow the order spglib was given
-            arith += [norm(x) for x in ast.walk(el) if isinstance(x, ast.Subscript)]
-            arith += [norm(x) for e in sl["exprs"] for x in ast.walk(e) if isinstance(x, ast.Subscript) and not isinstance(x.slice, ast.Constant)]
+            # (only where per-original-atom arrays are observed; a consistent reordering of positions and numbers describes the same crystal)
+            if order_matters:
+                arith += [norm(x) for x in ast.walk(el) if isinstance(x, ast.Subscript)]
+                arith += [norm(x) for e in sl["exprs"] for x in ast.walk(e) if isinstance(x, ast.Subscript) and not isinstance(x.slice, ast.Constant)]
             defs = fl.rd[at].get(el.id, ()) if isinstance(el, ast.Name) else ()
             if getter in got and not arith and len(defs) <= 1:
                 rep.ok(rid, f"spglib description: {getter}() of the analysed system, unmodified")
